@@ -422,6 +422,7 @@ def run(tier):
                      "copied forward and only ever set to Unavailable; the half-move clock is 0 for pawn moves and captures and previous+1 otherwise; the en-passant file is Some(dest.file) iff the "
                      "move is a double push and only the two-square push sets that flag; the full-move number is incremented after Black's move; move_piece removes/adds the right pieces on the right "
                      "squares in the quiet, capture and en-passant cases; the castling rook table is the standard one; the key of the position being left is recorded once per move in a "
-                     "multiplicity-faithful container. Not decided: the pseudo-legal generators themselves (C01/C06)."),
+                     "multiplicity-faithful container; position_reached is membership in the whole record and get_halfmove_clock the top record's clock. The revocation relation is read case by case "
+                     "(mover, start, victim, square; each right alone present must be lost on every path). Not decided: the pseudo-legal generators themselves (C01/C06)."),
         assumptions=["moves fed to make_move are generated moves whose flags describe them truthfully (C01.pawn-table, C01.castle-moves)"],
         tier=tier)
